@@ -972,6 +972,8 @@ func TestCheck(t *testing.T) {
 	vcommon.Main(t, "C04",
 		vcommon.S("budget", 2400, 50000, genBudget(), checkBudget),
 		vcommon.S("cancel", 1600, 30000, genCancel(), checkCancel),
+		vcommon.S("ref-truncation", 1200, 40000, genRefTrunc(), checkRefTrunc),
+		vcommon.S("bound-routes", 1200, 40000, genRoute(), checkRoute),
 		vcommon.S("bounds", 24000, 500000, genDepth(), checkDepth),
 		vcommon.S("entry-points", 6000, 150000, genEP(), checkEP),
 		vcommon.S("empty-dotimes", 800, 20000, rapid.Custom(func(t *rapid.T) EmptyLoop {
